@@ -33,6 +33,84 @@ CHECKS = {
         ref='DESIGN.md §5 C10'),
 }
 
+CHECKS.update({
+    'C03': dict(
+        technique='static analysis: entry-by-entry agreement of writer-side tables (serializers, null markers, effective csv dialect from the stdlib, suffix, encoding) with the descriptor properties stamped for the reader, over platform-dependent constant sets; dominance and def-use rules',
+        text='Decides the table-shaped necessary conditions of the CSV/JSON round trip: temporal write format == stamped parse format for every member of the constant sets, str() lexical forms of booleans/numbers/nulls are the stamped ones, the stamped CSV dialect equals the effective dialect of the writer constructed, prepare_resource stamps format/suffix/encoding and chains to the per-type dialect merge, None is mapped to the null marker before any serializer, object-row formats must normalise column order (LF2), the copy-out path depends on the rewritten descriptor path, datapackage loading casts, temporal_format_property is consistent. Value-level round-trip equality is not decided.',
+        note='Known finding: JSON format with non-alphabetical field names cannot be loaded back (tabulator sorts keys). LF2, LF3 (csv.excel read from the stdlib), LF4.',
+        ref='DESIGN.md §5 C03'),
+    'C05': dict(
+        technique='static analysis: row-loop shape on enumerated paths (one identity yield, no row store, no early exit, one write per row), ordering constraints for framing/finalisation, stream-consumption signatures, finalizer ordering',
+        text='Decides that every observer row loop (printer, stream writer, file dumper, row counter, checkpoint notifier, base loop used by finalizer/update_stats) re-yields the identical row exactly once per iteration and writes it exactly once; that framing and finalisation follow the loops; that every step consumes (yields or drains) each upstream resource and the driver drains; that the finalizer callback fires once after the complete iterator. Behaviour of downstream user steps is not decided.',
+        note='Observers located by role from the property anchors; generator semantics trusted.',
+        ref='DESIGN.md §5 C05'),
+    'C07': dict(
+        technique='static analysis: writer/reader tag-table agreement, format-constant set evaluation, isinstance-order rule, timedelta.seconds rule, chain-replacement shape, line-framing shape',
+        text='Decides that the typed JSON encoder and decoder agree on tags, payload shapes and formats, that datetime is tested before date, that the UTC offset is converted with total_seconds (R24), that an existing checkpoint replaces exactly the preceding links, and that stream/unstream agree on one-document-per-line framing with blank-line resource separators. Value-level round trip through json/isodate is not decided.',
+        note='LF7 (timedelta.seconds in [0,86400)).',
+        ref='DESIGN.md §5 C07'),
+    'C08': dict(
+        technique='static analysis: typestate temp -> closed -> renamed on enumerated paths; who-may-open/rename census of the writer modules; reader-side name agreement',
+        text='Decides that the only file opened for writing by the checkpoint writer is <final>+constant non-empty suffix, that the single rename maps exactly that temp name to the final name, after close, after the complete resource loop and never from except/finally, and that the reader tests and opens the final name only. Power-loss durability is not decided.',
+        note='LF6 (rename atomicity on POSIX).',
+        ref='DESIGN.md §5 C08'),
+    'C09': dict(
+        technique='static analysis: ordering constraints on one temp-file value, alias classification of stat targets, counter/value role tables, descriptor sealing after serialisation, path dependence, nondeterminism census',
+        text='Decides order finalize<tell/hash<close<copy on the same temp file, that every counter is written into the package descriptor tree (not a private Resource copy) under its own configured name with the right kind of value, that nothing is stored into the descriptor between serialisation and stats read-out, that the copy-out path depends on the hashed descriptor path, and that no clock/random source occurs in the dumpers. That tell() equals byte size for every text is not decided.',
+        note='Known finding: datapackage.json size is added to the bytes counter after the descriptor was serialised. LF1.',
+        ref='DESIGN.md §5 C09'),
+    'C11': dict(
+        technique='static analysis: guarded path signature of the per-row loop over {KeyError, mode == inner}, post-loop emission shape, aggregator table vs canonicalised definitions',
+        text='Decides structure only: per target row found/extend/yield-once, unmatched inner -> dropped, unmatched outer -> yielded once with nulls, full-outer emission of unused source keys after the loop, usage-flag protocol, deduplication emission, aggregator folds/finalisers in their documented (canonicalised) form, index-before-target assertion, descriptor/stream count agreement. That aggregates equal their definitions on all inputs, key rendering and spill equivalence are NOT decided.',
+        note='LF5 (KVFile). Headline behaviour (aggregate values) is a runtime-value quantifier.',
+        ref='DESIGN.md §5 C11'),
+    'C12': dict(
+        technique='static analysis: def-use of the storage key on the enumerate index, option-flow of reverse/batch_size, width-domain abstract evaluation of the key expression',
+        text='Decides structure only: every row stored under sort key + fixed-width row number and yielded once, reverse/batch_size reach only their sinks and not the key, shape of the numeric encoding, and (R22) that a variable-width key component is last or separated. Correctness of the order itself on values is NOT decided.',
+        note='Known findings: key followed by row number without separator; multi-field keys concatenated without separator. LF5.',
+        ref='DESIGN.md §5 C12'),
+    'C13': dict(
+        technique='static analysis: option-guarded wrapper installation per flag valuation, row-loop shapes, raise-or-rename path signature, strategy tables, selection agreement and consumption of skipped iterators',
+        text='Decides structure only: wrappers applied exactly when their option is set, limiter shape (init 0, yield, increment, break on >=), stripper/stringer/extractor shapes, duplicate headers raise unless de-duplication requested, strategy tables, equal selection of descriptors and iterators including draining skipped iterators. CSV fidelity and inference are NOT decided.',
+        note='tabulator semantics trusted.',
+        ref='DESIGN.md §5 C13'),
+    'C14': dict(
+        technique='static analysis: control-dependence shape of the validator loop, constant-return analysis of the policy table, def-use option flow of set_type/validate',
+        text='Decides that a row is yielded exactly when no handler answered drop, that the cast value is stored under the field it was read from, that only CastError is intercepted and routed to on_error(name,row,index,error,field), the four predefined policies and the arity adapter, and that set_type/validate hand policy and matched field names to the validator with transform before cast. That Table Schema cast is correct is not decided.',
+        note='LF8.',
+        ref='DESIGN.md §5 C14'),
+    'C15': dict(
+        technique='static analysis: def-use phase coupling, anchoring and regex-switch rules, guard dominance, row-rebuild shape, field-order nesting rules, operation table vs definitions and abstract types',
+        text='Decides that field-level steps configure their row wrappers from what they wrote into the schema, anchor and escape name patterns, edit only matched resources, keep values untouched when rebuilding rows (rename defaulting to the key), follow the documented field order, store computed values only under the target name and apply the documented operations. Computed values themselves are not decided.',
+        note='',
+        ref='DESIGN.md §5 C15'),
+    'C16': dict(
+        technique='static analysis: guarded descriptor/stream count signatures, append-order rule, save/replay wiring by def-use, typestate of concatenate target placement',
+        text='Decides count agreement, identity of untouched resources and consumption for delete_resource/duplicate/update_resource/concatenate, upstream-first ordering for iterable_loader/load/sources, duplicate save-then-replay from the same store with index keys, concatenate row expansion, counting and single target placement. Field mapping on values and KVFile value fidelity are not decided.',
+        note='LF5.',
+        ref='DESIGN.md §5 C16'),
+    'C17': dict(
+        technique='static analysis: row-loop signatures of the three row wrappers, complementary schema split, phase coupling',
+        text='Decides that filter yields the identical row iff condition(row), that deduplicate drops exactly rows whose primary-key tuple was seen and records new keys on the yielding path, that unpivot yields one fresh row per (row, unpivoted field) made of key copy + kept fields + cell, and that the schema split is complementary. Equality semantics on values are not decided.',
+        note='',
+        ref='DESIGN.md §5 C17'),
+    'C18': dict(
+        technique='static analysis: end-marker protocol conditions (count agreement by def-use, ordering, exactly-one put/forward per path) on producer, worker, collector and consumer',
+        text='Decides ONLY necessary conditions of the queue protocol: marker counts derive from one value, markers follow rows, each row is put and forwarded exactly once on every path, the collector signals completion only at zero, the consumer yields until the marker. The property\'s headline "for every interleaving" is NOT decided: no static argument in reach bounds schedules (that needs a model checker, a different family).',
+        note='Failure paths are C04 known findings.',
+        ref='DESIGN.md §5 C18'),
+    'C19': dict(
+        technique='static analysis: commit-point ordering on enumerated paths (post-loop, not in except/finally, single writer of datapackage.json, copy after finalize and close)',
+        text='Decides that handle_datapackage runs once after the loop over all resource streams and outside except/finally, that datapackage.json is written by one function after json.dump and close, that each data file is copied out after finalize_file and close after its row loop from the temp file that was measured, and that streams go through process_resource. Atomicity of shutil.copy is not decided.',
+        note='LF6; sequential draining by the driver (C01/C05 R3).',
+        ref='DESIGN.md §5 C19'),
+    'C20': dict(
+        technique='static analysis: guarded path signature of process_resource over {mapped, rewrite&exists, exists, update}, option flow into storage.write, row-loop shape of the downstream rows',
+        text='Decides structure only: delete iff rewrite and exists, create iff absent, update keys iff update mode defaulting to the primary key, options reach the writer, downstream rows are the written rows with truthful optional flags. Table contents (tableschema-sql semantics) and dump histories are NOT decided.',
+        note='Known finding: array/object values are rewritten in place in rows that continue downstream.',
+        ref='DESIGN.md §5 C20'),
+})
+
 NOT_BUILT = 'check not built yet in this session (see DESIGN.md §5 for the planned static rules)'
 
 
